@@ -7,7 +7,10 @@
 (*     deps[m]  = the modules m's constructor declares with                *)
 (*                module_depends(), in call order,                         *)
 (*     list     = the `modules` list of the configuration, in order,       *)
-(*     missing  = modules for which no shared object exists;               *)
+(*     missing  = modules for which no shared object exists,               *)
+(*     nopost   = modules whose shared object has no module_post_init,     *)
+(*     nodtor   = modules whose shared object has no module_destructor     *)
+(*                (both entry points are optional; "hook profile");        *)
 (*   * the event log written by the modules' own entry points              *)
 (*     (ctor-begin / ctor-end / post-init / dtor, with the module), plus   *)
 (*     "running" = the process was observed inside main()'s event loop;    *)
@@ -38,6 +41,19 @@
 (*    module constructed and post-initialised exactly once, and after the  *)
 (*    clean-stop signal runs every destructor exactly once and exits 0.    *)
 (*    (D12 -- a diamond refused as a "loop" -- is a violation of this.)    *)
+(*  - Optional entry points.  module_post_init and module_destructor are   *)
+(*    optional.  "its post-init runs exactly once" and "its destructor     *)
+(*    runs" are required of the modules that HAVE the entry point; a       *)
+(*    module without it contributes no event.  The ORDER sentences relate  *)
+(*    the events that exist: they are stated over the transitive closure   *)
+(*    of the FULL dependency relation (DependsOnPlus), restricted          *)
+(*    afterwards to the modules that have the entry point.  So if a        *)
+(*    depends on b depends on c and b has no destructor, a's destructor    *)
+(*    must still run before c's; the same for post-init in the other       *)
+(*    direction.  The structural sentences do not depend on the profile:   *)
+(*    every needed module is constructed once, dependencies first, and a   *)
+(*    module that is merely reachable along two paths -- with or without   *)
+(*    hooks -- is no cycle: the case is GOOD and must start.               *)
 (***************************************************************************)
 EXTENDS Naturals, Integers, Sequences, FiniteSets
 
@@ -62,6 +78,13 @@ Cyclic(c)     == \E m \in Needed(c) : m \in DependsOnPlus(c, m)
 Unloadable(c) == Needed(c) \cap c.missing # {}
 Good(c)       == ~Cyclic(c) /\ ~Unloadable(c)
 
+\* the hook profile: which modules have the optional entry points
+HasPost(c, m) == m \notin c.nopost
+HasDtor(c, m) == m \notin c.nodtor
+\* everything m depends on, directly or through ANY modules, that has the entry point itself
+PostDepsOf(c, m) == {d \in DependsOnPlus(c, m) : HasPost(c, d)}
+DtorDepsOf(c, m) == {d \in DependsOnPlus(c, m) : HasDtor(c, d)}
+
 (* ---------------- the log side ---------------- *)
 
 Ev(e, m)       == [e |-> e, m |-> m]
@@ -79,8 +102,12 @@ WellFormed(c, log, status) ==
     /\ \A m \in 1..c.n : Range(c.deps[m]) \subseteq 1..c.n
     /\ Len(c.list) >= 1 /\ Range(c.list) \subseteq 1..c.n
     /\ c.missing \subseteq 1..c.n
+    /\ c.nopost \subseteq 1..c.n /\ c.nodtor \subseteq 1..c.n
     /\ \A i \in 1..Len(log) : /\ log[i].e \in Kinds
                               /\ log[i].m \in (IF log[i].e = "running" THEN {0} ELSE 1..c.n)
+                              \* an entry point the shared object does not contain cannot have written a line
+                              /\ log[i].e = "post-init" => HasPost(c, log[i].m)
+                              /\ log[i].e = "dtor" => HasDtor(c, log[i].m)
     /\ status \in Int
 
 (* ---- GOOD cases: "For every acyclic dependency graph among the modules named in the ---- *)
@@ -101,37 +128,44 @@ A_DepsConstructedFirst(c, log) ==
         log[i].e = "ctor-end" =>
             \A d \in Range(c.deps[log[i].m]) : Before(log, "ctor-end", d, i)
 
-\* "... its post-init runs exactly once ..."   (at most once; "at least once" is A_StartsComplete)
+\* "... its post-init runs exactly once ..."   (at most once, and never for a module without the entry
+\* point; "at least once" for the modules that have it is A_StartsComplete)
 A_PostInitOnce(c, log) ==
-    \A m \in 1..c.n : Count(log, "post-init", m) <= 1
+    \A m \in 1..c.n : Count(log, "post-init", m) <= (IF HasPost(c, m) THEN 1 ELSE 0)
 
 \* "... and after those of everything it depends on (also when a module is reachable along two paths) ..."
+\* everything it depends on, directly or through other modules (with or without a post-init of their
+\* own), that has a post-init
 A_PostInitAfterDeps(c, log) ==
     \A i \in 1..Len(log) :
         log[i].e = "post-init" =>
-            \A d \in DependsOnPlus(c, log[i].m) : Before(log, "post-init", d, i)
+            \A d \in PostDepsOf(c, log[i].m) : Before(log, "post-init", d, i)
 
 \* "... and at shutdown its destructor runs before the destructors of the modules it depends on."
+\* the modules it depends on, directly or through other modules (with or without a destructor of
+\* their own), that have a destructor
 A_DtorBeforeDeps(c, log) ==
-    /\ \A m \in 1..c.n : Count(log, "dtor", m) <= 1
+    /\ \A m \in 1..c.n : Count(log, "dtor", m) <= (IF HasDtor(c, m) THEN 1 ELSE 0)
     /\ \A i \in 1..Len(log) :
           log[i].e = "dtor" =>
-              \A d \in DependsOnPlus(c, log[i].m) : ~Before(log, "dtor", d, i)
+              \A d \in DtorDepsOf(c, log[i].m) : ~Before(log, "dtor", d, i)
 
 \* a GOOD case starts up: it is seen running exactly once, and by then every needed module has
-\* been constructed and post-initialised (exactly once, by the conjuncts above) and none destroyed
+\* been constructed and -- if it has a post-init -- post-initialised (exactly once, by the conjuncts
+\* above) and none destroyed.  Whatever the hook profile: a graph without a cycle must start.
 A_StartsComplete(c, log) ==
     /\ Cardinality({i \in 1..Len(log) : log[i].e = "running"}) = 1
     /\ \A i \in 1..Len(log) :
           log[i].e = "running" =>
               /\ \A m \in Needed(c) : /\ Before(log, "ctor-end", m, i)
-                                      /\ Before(log, "post-init", m, i)
+                                      /\ HasPost(c, m) => Before(log, "post-init", m, i)
               /\ \A m \in 1..c.n : ~Before(log, "dtor", m, i)
 
-\* after the clean-stop signal every needed module's destructor has run and the exit status is 0
+\* after the clean-stop signal the destructor of every needed module that has one has run, and the
+\* exit status is 0
 A_StopsClean(c, log, status) ==
     /\ status = 0
-    /\ \A m \in Needed(c) : Count(log, "dtor", m) = 1
+    /\ \A m \in Needed(c) : HasDtor(c, m) => Count(log, "dtor", m) = 1
 
 (* ---- BAD cases: "A genuine dependency cycle or an unloadable module aborts start-up ---- *)
 (* ---- with an error instead of running partially initialised."                       ---- *)
